@@ -1452,10 +1452,26 @@ pub fn bad_name_inputs() -> Vec<Input> {
         // a function-names subsection that announces two entries and holds one
         m.section(&we::CustomSection { name: "name".into(), data: (&[1u8, 6, 2, 0, 3, b'a', b'b', b'c'][..]).into() });
     });
-    vec![
+    let mut v = vec![
         Input { id: "badnames-dangling-locals".into(), bytes: dangling, source: "badnames:dangling-locals".into() },
         Input { id: "badnames-truncated".into(), bytes: truncated, source: "badnames:truncated".into() },
-    ]
+    ];
+    // the same for the other custom sections walrus interprets: a payload it cannot read is no reason to refuse the module
+    for (tag, name, data) in [
+        ("producers-empty", "producers", vec![]),
+        ("producers-truncated-count", "producers", vec![0x80u8]),
+        ("producers-overlong-count", "producers", vec![0xff, 0xff, 0xff, 0xff, 0xff, 0x01]),
+        ("producers-field-cut", "producers", vec![1, 8, b'l', b'a', b'n', b'g', b'u', b'a', b'g', b'e', 2, 1, b'x']),
+        ("name-empty", "name", vec![]),
+        ("name-garbage", "name", vec![9, 200, 1, 2, 3]),
+        ("debug-info-garbage", ".debug_info", vec![1, 2, 3, 4, 5]),
+    ] {
+        let bytes = base(&|m| {
+            m.section(&we::CustomSection { name: name.into(), data: data.as_slice().into() });
+        });
+        v.push(Input { id: format!("badnames-{}", tag), bytes, source: format!("badnames:{}", tag) });
+    }
+    v
 }
 
 /// one module per post-MVP proposal that needs exactly (or at least) that proposal, plus MVP modules
